@@ -71,6 +71,32 @@ def run_case(runner, space, case):
         if not r.status.startswith("exit:") or r.status in ("exit:86", "exit:87"):
             viol.append(("c07-cli-abnormal", "%s %r" % (r.status, r.stderr[:200])))
         return {"transitions": n, "outcome": hash((r.status, len(good), len(badset))), "nontrivial": True, "violations": viol}
+    if space == "c07" and "shape" in case:
+        # members whose bytes end in long runs of zeros (a writer that seeks over zeros instead of writing them leaves the file
+        # short), and a member whose parent directory cannot be made (a dangling link sits at its name)
+        if case["shape"] == "zeros":
+            plain = bytes((i * 7 + 1) & 0xFF for i in range(case["head"])) + bytes(case["zeros"])
+            arc = entry("f", b"", b"padded.bin", plain, level=2) + entry("f", b"", b"small.txt", b"small member\n", level=1)
+            want = {b"padded.bin": plain, b"small.txt": b"small member\n"}
+            expect_fail = False
+        else:
+            arc = entry("l", b"", b"data", target=b"nowhere", level=2) + entry("f", b"data/", b"inner", b"inner bytes", level=2) + entry("f", b"", b"ok.txt", b"fine", level=2)
+            want = {b"data/inner": b"inner bytes", b"ok.txt": b"fine"}
+            expect_fail = True
+        r = runner.run(arc, [case["cmd"], "../archive.lzh"], stdin=b"", want_trees=True)
+        good, badset = parse_names(r.stdout, None, None)
+        for nm, plain in want.items():
+            node = r.tree.get(nm)
+            intact = node is not None and node[0] == "f" and node[3] == plain
+            if nm in good and not intact:
+                viol.append(("c07-cli-melted-without-file", "%s: %r is reported Melted but the file holds %s of %d bytes" % (case["cmd"], nm, "nothing" if node is None or node[3] is None else len(node[3]), len(plain))))
+            if not intact and r.status == "exit:0":
+                viol.append(("c07-cli-exit-status", "%s: %r was not produced (%s of %d bytes on disk), exit status 0" % (case["cmd"], nm, "nothing" if node is None or node[3] is None else len(node[3]), len(plain))))
+        if expect_fail and r.status == "exit:0":
+            viol.append(("c07-cli-exit-status", "%s: a member whose parent directory cannot be created, exit status 0" % case["cmd"]))
+        if not r.status.startswith("exit:") or r.status in ("exit:86", "exit:87"):
+            viol.append(("c07-cli-abnormal", "%s %r" % (r.status, r.stderr[:200])))
+        return {"transitions": 1, "outcome": hash((r.status, tuple(sorted(good)))), "nontrivial": True, "violations": viol}
     if space == "c07" and "fsize" in case:
         # writes to the output file start failing after 'fsize' bytes (file size limit of the process): a member that does not fit
         # must not be reported as extracted, and the exit status must say so
@@ -212,6 +238,11 @@ def cases_c07(thorough):
         for lim in limits:
             for cmd in ("xf", "xq1", "ef"):
                 yield {"size": size, "fsize": lim, "cmd": cmd}
+    for head, zeros in ((256, 768), (0, 64), (0, 4096), (100, 28), (64, 64), (1, 63), (1000, 8192 - 1000), (0, 65536)):
+        for cmd in ("xf", "xq1", "ef"):
+            yield {"shape": "zeros", "head": head, "zeros": zeros, "cmd": cmd}
+    for cmd in ("xf", "xq", "ef", "xq1"):
+        yield {"shape": "noparent", "cmd": cmd}
     for blocked in range(1, 8):
         for cmd in ("xf", "xq1", "ef", "xfq0"):       # forms that do not prompt about the existing path
             yield {"mask": 0, "how": "crc", "cmd": cmd, "blocked": blocked}
